@@ -99,6 +99,7 @@ package geom
 //@   ensures result.nonEmpty <==> e.nonEmpty
 
 //@ func NewEnvelope
+//@   mode order
 //@   requires forall k :: 0 <= k && k < len(xys) ==> XYFin(xys[k])
 //@   ensures EnvOK(result)
 //@   ensures result.nonEmpty <==> len(xys) > 0
@@ -137,6 +138,7 @@ package geom
 //@ pred SeqTouches(e, s) = (exists p :: 0 <= p && p < NPts(s) && e.min.X == PX(s, p)) && (exists p :: 0 <= p && p < NPts(s) && e.max.X == PX(s, p)) && (exists p :: 0 <= p && p < NPts(s) && e.min.Y == PY(s, p)) && (exists p :: 0 <= p && p < NPts(s) && e.max.Y == PY(s, p))
 
 //@ func Sequence.Envelope
+//@   mode order
 //@   split s.ctype 0 1 2 3
 //@   requires SeqInv(s) && SeqFin(s)
 //@   ensures EnvOK(result) && (result.nonEmpty <==> len(s.floats) > 0)
@@ -158,6 +160,7 @@ package geom
 
 //@ pred PtFin(p) = p.full ==> XYFin(p.coords.XY)
 //@ func MultiPoint.Envelope
+//@   mode order
 //@   requires forall k :: 0 <= k && k < len(m.points) ==> PtFin(m.points[k])
 //@   ensures EnvOK(result)
 //@   ensures result.nonEmpty <==> (exists k :: 0 <= k && k < len(m.points) && m.points[k].full)
